@@ -491,7 +491,7 @@ pub const BIG_TYPES: [Ty; 8] = [
 ];
 
 pub fn big_ids() -> Vec<String> {
-    ["a", "b", "c", "d.x", "d.y", "e", "d.z.w", "f", "p/q"].iter().map(|s| s.to_string()).collect()
+    ["a", "b", "c", "d.x", "d.y", "e", "d.z.w", "f", "p/q", ".lead"].iter().map(|s| s.to_string()).collect()
 }
 
 /// Random recipe over the big id/type alphabet (no threads / other caches here).
